@@ -12,6 +12,8 @@ KIND_D='PARTICULAR INTERLEAVING'
 TEXT_D='The property must stay intact in every single-threaded use and break only under ONE PARTICULAR INTERLEAVING of two threads (the networking thread and a user thread, or two user threads): a lock taken a little later or released a little earlier, a check made outside the lock and acted on inside it, a flag read twice, a list iterated while another thread registers into it, a queue inspected and then popped in two steps, an attribute swapped in two assignments that another thread can see in between. The demo must FORCE that interleaving deterministically (threading.Event / Barrier placed through a subclassed or wrapped socket, listener, handler or packet object, or a monkeypatched EXTERNAL such as socket / select / time / threading - do NOT monkeypatch the library itself and do not rely on sleeping and hoping) and show the property violated; on the original code the same forced schedule must be harmless.'
 KIND_E='UNUSUAL BUT VALID USE OF THE PUBLIC API'
 TEXT_E='The property must stay intact for the ways the test suite and start.py use the library and break only for an UNUSUAL BUT VALID use of the public API that the documentation or the code comments explicitly allow: an optional argument given (or given by keyword instead of by position, or as the other accepted type - a name instead of a number, a tuple instead of a record, a list instead of a set, bytes-like instead of bytes), a documented alternative call style (decorator instead of method, class access instead of instance access, subclass overriding a documented hook such as get_id / get_definition / a class attribute), an instance reused or copied, an empty collection, a packet or type defined by the user on top of the library base classes. The demo uses only such documented forms.'
+KIND_F='PYTHON SEMANTICS SUBTLETY'
+TEXT_F='The change must be one that reads as equivalent to a reviewer who does not think hard about Python semantics, and breaks the property only through such a subtlety: a mutable default argument or a class-level mutable shared between instances; a closure that binds late; `is` where `==` is meant (or the reverse) for small ints / interned strings / None-vs-falsy; truthiness of 0, 0.0, empty bytes, empty string, empty tuple; bool being an int; integer vs float division or rounding (round-half-even, floor vs trunc of negatives, `//` and `%` on negative numbers); dict / set iteration order; `or` / `and` returning an operand; a generator or iterator consumed twice; `__slots__`, MRO or classmethod/staticmethod/property binding; exception chaining or a bare `except` catching too much; `bytes` vs `bytearray` vs `memoryview` behaviour; string formatting of negative or large numbers; chained comparison or operator precedence. The property must survive ordinary values and break only for the value or usage that meets the subtlety.'
 i=0
 for n in $(seq -w 1 20); do
   PID="C$n"; D="/tmp/seed${ROUND:-8}-$PID"
@@ -24,8 +26,8 @@ for l in open(sys.argv[1]):
     if p['id'] == sys.argv[2]:
         print(p['title']); print(); print(p['statement'])
 PY
-  case "${KINDS:-}" in "") k=$(( i % 3 ));; *) k=$(echo "$KINDS" | cut -c$((i+1)) | tr 'ABCDE' '01234');; esac
-  case $k in 0) K="$KIND_A"; T="$TEXT_A";; 1) K="$KIND_B"; T="$TEXT_B";; 2) K="$KIND_C"; T="$TEXT_C";; 3) K="$KIND_D"; T="$TEXT_D";; 4) K="$KIND_E"; T="$TEXT_E";; esac
+  case "${KINDS:-}" in "") k=$(( i % 3 ));; *) k=$(echo "$KINDS" | cut -c$((i+1)) | tr 'ABCDEF' '012345');; esac
+  case $k in 0) K="$KIND_A"; T="$TEXT_A";; 1) K="$KIND_B"; T="$TEXT_B";; 2) K="$KIND_C"; T="$TEXT_C";; 3) K="$KIND_D"; T="$TEXT_D";; 4) K="$KIND_E"; T="$TEXT_E";; 5) K="$KIND_F"; T="$TEXT_F";; esac
   { sed "s#__DIR__#$D#g" "$HERE/tools/seed_prompt.txt"; echo
     sed -e "s#__KIND__#$K#" "$HERE/tools/seed_prompt8_extra.txt" | python3 -c "import sys; print(sys.stdin.read().replace('__KINDTEXT__', sys.argv[1]))" "$T"; } > "$D/PROMPT.txt"
   echo "$PID kind=$K"
